@@ -35,7 +35,7 @@ class QuantTreePart(Part):
     harness = "quantiles_h"
     model_exe = "dsmodel_quantiles"
     family = "quantiles"
-    cmp = staticmethod(Q.line_cmp)
+    cmp = staticmethod(Q.line_cmp_c08)
     timeout = 300
     stats = None
 
